@@ -396,3 +396,39 @@ func valueAt(R []string, p string, k int, hv bool) string {
 func lastName(R []string, n int, k int, hv bool) bool {
 	return forall(k+1, n, func(k2 int) bool { return !(bindsAt(R, k2, hv) && nameAt(R, k2, hv) == nameAt(R, k, hv)) })
 }
+
+// --- exactness of the detectRoute stage (C02) ------------------------------------
+
+// inCands: pointer p occurs in c[lo:hi].
+func inCands(c []*Route, lo, hi int, p *Route) bool {
+	return exists(lo, hi, func(a int) bool { return c[a] == p })
+}
+
+// anyPasses: some route passes all stages up to and including the given one.
+func anyPasses(routes []Route, req *http.Request, stage int) bool {
+	return exists(0, len(routes), func(j int) bool { return passes(routes[j], req, stage) })
+}
+
+// statusOf: the HTTP status a routing error carries.
+func statusOf(err error) int {
+	if se, ok := err.(ServiceError); ok {
+		return se.Code
+	}
+	return 0
+}
+
+// bodiless: a POST, PUT or PATCH that announces no body.
+func bodiless(req *http.Request) bool {
+	return (req.Method == "POST" || req.Method == "PUT" || req.Method == "PATCH") &&
+		(req.Header.Get("Content-Length") == "" || req.Header.Get("Content-Length") == "0")
+}
+
+// witOK: candidate pointer p is a witness that some route passes the stage.
+func witOK(p *Route, routes []Route, req *http.Request, stage int) bool {
+	return 0 <= ptrIndex(p, routes) && ptrIndex(p, routes) < len(routes) && passes(routes[ptrIndex(p, routes)], req, stage)
+}
+
+// curlyCand: the ranking record of a route (C03).
+func curlyCand(r Route) curlyRoute {
+	return curlyRoute{r, countParams(r.pathParts, len(r.pathParts), r.hasCustomVerb), countStatic(r.pathParts, len(r.pathParts), r.hasCustomVerb)}
+}
